@@ -7,6 +7,8 @@
 //@ safety: C14
 //@ expect: postcondition>=6 canary=4
 #include "_unit.h"
+/* the while-loop removes one session per round (remove_client's contract: num_clients decreases by one) and there are at most
+ * two: bound 3 with unwinding assertion, complete */
 void harness(void)
 {
     xv_ghost_havoc();
